@@ -2,11 +2,12 @@
 
 enumx: bounded exhaustive enumeration against the real frappy.datatypes, four sub-checks:
 
-rebuild     every catalogue type dt (vf.catalog.types.all_types + the 12 types with unit / fmtstr / resolution
+rebuild     every catalogue type dt (vf.catalog.types.all_types + the 38 types with unit / fmtstr / resolution (also exactly 0) / many-digit scale and limit
             properties of vf.harness.c02):  d = json.loads(json.dumps(dt.export_datatype()));  r = get_datatype(d, 'p');
             (1) json.loads(json.dumps(r.export_datatype())) == d;
             (2) for every probe x of V.cands(spec, entry, 1) (all valid values, the whole bad/boundary catalogue, valid
-                containers with one position replaced by a bad value; wire and driver form) dt and r accept / refuse alike
+                containers with one position replaced by a bad value; wire and driver form) and, for numeric types, numbers
+                at every decade of distance 1e-3..1e-12 from each limit (where the resolution properties decide), dt and r accept / refuse alike
                 with == results, and the accepted result has the same export, format_value (with unit) and to_string.
 copy        c = dt.copy(): the same equivalence (1)+(2) between dt and c, and between r and r.copy() (copy on the client);
             an object-identity walk over everything reachable from dt and from c: no DataType / Enum / EnumMember /
@@ -146,10 +147,41 @@ def spec_at(spec, path):
     return spec
 
 
+def tolerance_probes(spec, entry):
+    """numbers around the limits of a numeric leaf at every decade of relative / absolute distance (1e-3 .. 1e-12) and
+    at quarter steps of a scaled grid: where acceptance depends on the resolution properties of the datatype (the bad
+    catalogue of vf.catalog.values places its probes by the spec's own resolution only)"""
+    k = spec[0]
+    if k == 'double':
+        lo, hi = T.double_limits(spec)[:2]
+        steps = []
+    elif k == 'scaled' and entry == 'drv':
+        scale, lo, hi = T.scaled_limits(spec)
+        steps = [j * scale / 4 for j in range(1, 9)]
+    else:
+        return []
+    res = []
+    for lim in (lo, hi):
+        if abs(lim) >= T.FMAX / 2:
+            continue
+        for e in range(3, 13):
+            res += [lim * (1 + 10.0 ** -e), lim * (1 - 10.0 ** -e), lim + 10.0 ** -e, lim - 10.0 ** -e]
+        for st in steps:
+            res += [lim + st, lim - st]
+    return res
+
+
 def probes(spec, entry, deep=True):
     if deep:
-        return [x for x, _ in V.cands(spec, entry, 1)]
-    return list(V.valid(spec, entry)) + list(V.bad(spec, entry))
+        return [x for x, _ in V.cands(spec, entry, 1)] + tolerance_probes(spec, entry)
+    return list(V.valid(spec, entry)) + list(V.bad(spec, entry)) + tolerance_probes(spec, entry)
+
+
+def cands(spec, entry):
+    """(probe, number of bad / boundary positions)"""
+    yield from V.cands(spec, entry, 1)
+    for x in tolerance_probes(spec, entry):
+        yield x, 1
 
 
 # ---------------------------------------------------------------------------------------------
@@ -244,7 +276,7 @@ def equivalence(part, spec, mode, only_case=None, builder=None, name=None):
     for entry in ('wire', 'drv'):
         if only_case is not None and only_case.get('entry') != entry:
             continue
-        for x, nbad in (V.cands(spec, entry, 1) if only_case is None else [(V.dec(only_case['x']), 1)]):
+        for x, nbad in (cands(spec, entry) if only_case is None else [(V.dec(only_case['x']), 1)]):
             key = (entry, repr(x))
             if key in seen:
                 continue
@@ -777,8 +809,8 @@ def run(ctx):
         m = min(len(ptypes), 1024)     # one first-type per shard: the cost per first type varies widely
         ctx.pmap(shard_compat, [(ctx.tier, list(range(i, len(ptypes), m))) for i in range(m) if i < len(ptypes)],
                  name='compatible')
-    ctx.rule = ('enumeration. rebuild / copy: every catalogue type (all leaf kinds with boundary limits, containers to depth 3, 12 '
-                'types with unit / fmtstr / resolution properties) x every probe of V.cands(k=1) in wire and driver form, compared '
+    ctx.rule = ('enumeration. rebuild / copy: every catalogue type (all leaf kinds with boundary limits, containers to depth 3, 38 '
+                'types with unit / fmtstr / resolution properties (also exactly 0) and many-digit scales / limits) x every probe of V.cands(k=1) in wire and driver form, compared '
                 'between the type and its JSON rebuild, its copy, and the copy of the rebuild; object-identity walk original vs '
                 'copy. isolation: every type x {original, copy} x every DataType node in it x every applicable mutation. '
                 f'compatible: all {len(ptypes)}^2 ordered pairs of the pair catalogue, each passing pair probed with every valid '
